@@ -34,6 +34,14 @@ R2  one increment per successful add: on every normal path through `add` the
     counter has its entry value: not yet advanced at the point, or put back
     from the saved copy by the first handler that catches the refusal
     (directly or through a method of the store that is handed the saved copy).
+    A `with` over a context manager *of the program* is first read as what the interpreter runs for it
+    (`dissolve_managers`): the constructor's field stores become locals of add (a field that is just an argument is
+    that argument), `v.f` of the object bound by `as v` is that local, and `__exit__` becomes `except BaseException:
+    <what it does when handed an exception>; raise` / `else: <what it does when handed none>` (`finally` when it does
+    not look at its arguments) - its tests of the exception parameters are decided per case; generator-based managers
+    are spliced at their yield; copies of single-definition locals are propagated.  A manager that may swallow the
+    exception or that uses it otherwise is UNDECIDED.  R2 (and the shared restore dataflow of C10-R1) then judge the
+    rollback of a manager object exactly as a hand-written handler.
 R3  length: every value __len__ can return is classified - the sum of the
     trajectory dimension over *all* files of the measuring field set (a single
     element is wrong for merged stores), the cache size for an in-memory store,
@@ -48,6 +56,9 @@ R3  length: every value __len__ can return is classified - the sum of the
     compares the index with.  Members of record / helper classes (class known from annotations and constructors) are
     opened by the symbolic engine: a single-expression `@property` is its expression over the same object, an
     effect-free method is entered like a private helper; a `cached_property` that keeps objects is its expression.
+    Constructing a *record* of the program (dataclass / NamedTuple without written constructor) only keeps the
+    arguments: it is no effect, the value is not None, and a field read of it is the argument it was built with (so a
+    query method may hand its result back as a record).
 R4  eviction refusal, per site: every path to the base-class popitem() has seen
     the refusal flag unset and the set flag raises (a refusal raised after the
     base-class popitem() has already removed the entry is reported as such);
@@ -205,6 +216,13 @@ def run(ctx):
     rule_getitem(ctx, prog, m)
 
     # ---- R2 one increment per successful add -------------------------------
+    # (a `with` over a context manager of the program is read as the try / except / finally the interpreter runs: the
+    # rollback a manager's __exit__ performs when it is handed an exception is a handler of add)
+    add0 = add
+    try:
+        add = dissolve_managers(prog, add0)
+    except ManagerUndecided as e:
+        ctx.undecided('C07-R2', add0, 'with statement over a context manager of the program', str(e))
     g = CFG(add.node)
     inc_nodes = set()
     for n in g.nodes:
@@ -298,12 +316,16 @@ def run(ctx):
     # validate-before-mutate dataflow of C10-R1, restricted to the counter
     from .c10 import rule_add as _c10_add
     sub = type(ctx)(ctx.prop, ctx.prog, ctx.tier)
-    _c10_add(sub)
+    if add is add0:
+        _c10_add(sub)
+    else:
+        _c10_add(sub, fn=add)
     for o in sub.obligations:
         if '_next_index' in o.construct and o.rule == 'C10-R1':
             o.rule = 'C07-R2'
             ctx.obligations.append(o)
 
+    add = add0
     # ---- R8 an addition the write path would refuse half-way is refused before anything is written -------
     rule_prevalidation(ctx, prog, m, add)
 
@@ -587,6 +609,386 @@ def _in_reraising_handler(stmt):
         if isinstance(a, (ast.FunctionDef, ast.AsyncFunctionDef)):
             return False
     return False
+
+
+# ======================================================================================================
+# `with` statements over context managers of the program, as the try / except / finally the interpreter runs
+# ======================================================================================================
+
+class ManagerUndecided(Exception):
+    pass
+
+
+def _exc_truth(e: ast.expr, names: set[str], raised: bool, consts: dict | None = None):
+    """truth value of a test of `__exit__` over its exception parameters (`et`, `args[0]`, a local that holds such a
+    test) when BODY raised / did not raise; 'free' when the test does not read them, None when it reads them in a way
+    that is not followed"""
+    consts = consts or {}
+
+    def is_exc(x):
+        return (isinstance(x, ast.Name) and x.id in names) or (
+            isinstance(x, ast.Subscript) and isinstance(x.value, ast.Name) and x.value.id in names
+            and isinstance(x.slice, ast.Constant) and x.slice.value in (0, 1, 2))
+    if not any(isinstance(x, ast.Name) and (x.id in names or x.id in consts) for x in ast.walk(e)):
+        return 'free'
+    if isinstance(e, ast.Name) and e.id in consts:
+        return consts[e.id]
+    if is_exc(e):
+        return raised
+    if isinstance(e, ast.UnaryOp) and isinstance(e.op, ast.Not):
+        v = _exc_truth(e.operand, names, raised, consts)
+        return (not v) if isinstance(v, bool) else None
+    if isinstance(e, ast.Compare) and len(e.ops) == 1 and is_exc(e.left) \
+            and isinstance(e.comparators[0], ast.Constant) and e.comparators[0].value is None:
+        if isinstance(e.ops[0], (ast.Is, ast.Eq)):
+            return not raised
+        if isinstance(e.ops[0], (ast.IsNot, ast.NotEq)):
+            return raised
+        return None
+    if isinstance(e, ast.BoolOp):
+        vs = [_exc_truth(v, names, raised, consts) for v in e.values]
+        if all(isinstance(v, bool) for v in vs):
+            return all(vs) if isinstance(e.op, ast.And) else any(vs)
+    return None
+
+
+def _exit_branch(stmts: list, names: set[str], raised: bool, consts: dict | None = None):
+    """what `__exit__` does when BODY raised / did not raise: (statements, reached a return) - its tests of the
+    exception parameters decided, a trailing `return <false>` dropped.  ManagerUndecided when the exception is looked
+    at in another way, when it may be swallowed, or a `return` stands under a test that is kept."""
+    out = []
+    consts = {} if consts is None else consts
+    for s in stmts:
+        if isinstance(s, ast.Return):
+            v = s.value
+            if raised and not (v is None or (isinstance(v, ast.Constant) and not v.value)):
+                raise ManagerUndecided('__exit__ may swallow the exception')
+            if v is not None and not isinstance(v, (ast.Constant, ast.Name)):
+                raise ManagerUndecided('__exit__ returns a computed value')
+            return out, True
+        if isinstance(s, ast.Assign) and len(s.targets) == 1 and isinstance(s.targets[0], ast.Name):
+            t = _exc_truth(s.value, names, raised, consts)
+            if isinstance(t, bool):
+                consts[s.targets[0].id] = t         # a local that names the outcome
+                continue
+            consts.pop(s.targets[0].id, None)
+        if isinstance(s, ast.If):
+            t = _exc_truth(s.test, names, raised, consts)
+            if t is None:
+                raise ManagerUndecided('__exit__ tests the exception in a way that is not followed')
+            if t != 'free':
+                sub, done = _exit_branch(s.body if t else s.orelse, names, raised, consts)
+                out += sub
+                if done:
+                    return out, True
+                continue
+        if any(isinstance(x, ast.Return) for x in ast.walk(s)):
+            raise ManagerUndecided('return of __exit__ under a condition')
+        if any(isinstance(x, ast.Name) and (x.id in names or x.id in consts) for x in ast.walk(s)):
+            raise ManagerUndecided('__exit__ uses the exception')
+        out.append(s)
+    return out, False
+
+
+def _doc_free(body: list) -> list:
+    return [s for s in body if not (isinstance(s, ast.Expr) and isinstance(s.value, ast.Constant)
+                                    and isinstance(s.value.value, str))]
+
+
+class _ObjFields(ast.NodeTransformer):
+    """`<me>.f` -> the expression / local that stands for field f; names in `rename` renamed"""
+
+    def __init__(self, me: str | None, repl: dict, rename: dict | None = None, subst: dict | None = None):
+        self.me, self.repl, self.rename, self.subst = me, repl, rename or {}, subst or {}
+
+    def visit_Attribute(self, n: ast.Attribute):
+        if self.me is not None and isinstance(n.value, ast.Name) and n.value.id == self.me and n.attr in self.repl:
+            r = self.repl[n.attr]
+            if isinstance(r, str):
+                return ast.copy_location(ast.Name(r, n.ctx), n)
+            if not isinstance(n.ctx, ast.Load):
+                raise ManagerUndecided(f'field {n.attr} of the manager object is stored')
+            return ast.copy_location(copy.deepcopy(r), n)
+        return self.generic_visit(n)
+
+    def visit_Name(self, n: ast.Name):
+        if n.id == self.me:
+            raise ManagerUndecided('the manager object is used as a whole')
+        if n.id in self.subst and isinstance(n.ctx, ast.Load):
+            return ast.copy_location(copy.deepcopy(self.subst[n.id]), n)
+        if n.id in self.rename:
+            return ast.copy_location(ast.Name(self.rename[n.id], n.ctx), n)
+        return n
+
+
+def _detached_copy(node: ast.AST) -> ast.AST:
+    p = getattr(node, '_parent', None)
+    node._parent = None
+    try:
+        new = copy.deepcopy(node)
+    finally:
+        node._parent = p
+    new._parent = p
+    return new
+
+
+def _class_manager_try(prog, fi, fn_node: ast.AST, w: ast.With, ci) -> list:
+    """the statements `with C(args) [as v]: BODY` stands for, C a class of the program:
+
+        <constructor: its field stores, as locals of the caller - a field that is just an argument is that argument>
+        <body of __enter__>
+        try: BODY
+        except BaseException: <what __exit__ does when it is handed an exception>; raise
+        else: <what __exit__ does when it is handed none>          (`finally`, when __exit__ does not look)
+
+    and every `v.f` of the function is the local that holds field f (v bound to the object by `return self`)."""
+    from ..astutil import _bind_manager_arguments
+    it = w.items[0]
+    call = it.context_expr
+    init, enter, exit_ = (ci.find_method(k) for k in ('__init__', '__enter__', '__exit__'))
+    if enter is None or exit_ is None:
+        raise ManagerUndecided(f'{ci.name} has no __enter__ / __exit__ that can be read')
+    for f in (init, enter, exit_):
+        if f is None:
+            continue
+        if f.node.decorator_list or any(isinstance(x, (ast.Yield, ast.YieldFrom, ast.Await, ast.Global, ast.Nonlocal, ast.Lambda))
+                                        or (x is not f.node and isinstance(x, (ast.FunctionDef, ast.ClassDef)))
+                                        for x in ast.walk(f.node)):
+            raise ManagerUndecided(f'{f.qualname}: shape not followed')
+    cname = ci.name.split('.')[-1]
+    fn_stores = {x.id for x in ast.walk(fn_node) if isinstance(x, ast.Name) and isinstance(x.ctx, (ast.Store, ast.Del))}
+    var = None
+    if it.optional_vars is not None:
+        if not isinstance(it.optional_vars, ast.Name):
+            raise ManagerUndecided('the manager is unpacked')
+        var = it.optional_vars.id
+
+    def plain(v):
+        return isinstance(v, ast.Constant) or (isinstance(v, ast.Name) and v.id not in fn_stores)
+
+    pre: list[ast.stmt] = []
+    fields: dict[str, object] = {}      # field -> local name (str) | expression that stands for it
+
+    def local_of(fld):
+        return f'{fld}__{cname}'
+
+    if init is not None:
+        bound = _bind_manager_arguments(init.node, call, ast.Name('<self>', ast.Load()))
+        if bound is None or not init.node.args.args:
+            raise ManagerUndecided('constructor arguments cannot be bound')
+        me0 = init.node.args.args[0].arg
+        subst = {}
+        for p, v in bound.items():
+            if p == me0:
+                continue
+            if plain(v):
+                subst[p] = v
+            else:
+                nm = f'{p}__{cname}'
+                subst[p] = ast.Name(nm, ast.Load())
+                pre.append(ast.copy_location(ast.Assign(targets=[ast.Name(nm, ast.Store())], value=copy.deepcopy(v)), w))
+        for s in _doc_free(init.node.body):
+            if isinstance(s, ast.Assign) and len(s.targets) == 1:
+                t, v = s.targets[0], s.value
+            elif isinstance(s, ast.AnnAssign) and s.value is not None:
+                t, v = s.target, s.value
+            elif isinstance(s, ast.Pass):
+                continue
+            else:
+                raise ManagerUndecided('the constructor does more than store fields')
+            if not (isinstance(t, ast.Attribute) and isinstance(t.value, ast.Name) and t.value.id == me0) or t.attr in fields:
+                raise ManagerUndecided('the constructor does more than store fields')
+            v2 = _ObjFields(me0, dict(fields), subst=subst).visit(copy.deepcopy(v))
+            if plain(v2):
+                fields[t.attr] = v2
+            else:
+                fields[t.attr] = local_of(t.attr)
+                pre.append(ast.copy_location(ast.Assign(targets=[ast.Name(local_of(t.attr), ast.Store())], value=v2), s))
+    else:
+        # generated constructor: the annotated fields in order (dataclass)
+        if not any('dataclass' in ast.unparse(d) for d in ci.node.decorator_list) or len(ci.mro()) > 1:
+            raise ManagerUndecided('no constructor to read')
+        if ci.find_method('__post_init__') is not None:
+            raise ManagerUndecided('__post_init__ is not followed')
+        order = list(ci.annotated_fields())
+        defaults = {k: v for k, v in ci.class_assignments().items() if v is not None}
+        if any(isinstance(x, ast.Starred) for x in call.args) or any(k.arg is None for k in call.keywords) \
+                or len(call.args) > len(order):
+            raise ManagerUndecided('constructor arguments cannot be bound')
+        given = dict(zip(order, call.args))
+        for k in call.keywords:
+            if k.arg in given or k.arg not in order:
+                raise ManagerUndecided('constructor arguments cannot be bound')
+            given[k.arg] = k.value
+        for fld in order:
+            v = given.get(fld, defaults.get(fld))
+            if v is None or (fld not in given and not isinstance(v, ast.Constant)):
+                raise ManagerUndecided('constructor arguments cannot be bound')
+            if plain(v):
+                fields[fld] = v
+            else:
+                fields[fld] = local_of(fld)
+                pre.append(ast.copy_location(ast.Assign(targets=[ast.Name(local_of(fld), ast.Store())], value=copy.deepcopy(v)), w))
+
+    # fields stored after construction (by __enter__ / __exit__ / the function through v) live in locals
+    def stored_fields(node, me):
+        return {x.attr for x in ast.walk(node) if isinstance(x, ast.Attribute) and isinstance(x.value, ast.Name)
+                and x.value.id == me and isinstance(x.ctx, (ast.Store, ast.Del))}
+    later = set()
+    for f in (enter, exit_):
+        if f.node.args.args:
+            later |= stored_fields(f.node, f.node.args.args[0].arg)
+    if var is not None:
+        later |= stored_fields(fn_node, var)
+    for fld in later:
+        if not isinstance(fields.get(fld), str):
+            if fld in fields:
+                pre.append(ast.copy_location(ast.Assign(targets=[ast.Name(local_of(fld), ast.Store())], value=copy.deepcopy(fields[fld])), w))
+            fields[fld] = local_of(fld)
+
+    def part(f, names_fixed=()):
+        a = f.node.args
+        me = a.args[0].arg if a.args else None
+        if me is None:
+            raise ManagerUndecided(f'{f.qualname}: no receiver')
+        loc = {x.id for x in ast.walk(f.node) if isinstance(x, ast.Name) and isinstance(x.ctx, (ast.Store, ast.Del))}
+        rename = {nm: f'{nm}__{cname}' for nm in loc if nm not in names_fixed}
+        return me, rename
+
+    # __enter__
+    me, rename = part(enter)
+    ebody = _doc_free(enter.node.body)
+    enter_val = None
+    if ebody and isinstance(ebody[-1], ast.Return):
+        enter_val, ebody = ebody[-1].value, ebody[:-1]
+    if any(isinstance(x, ast.Return) for s in ebody for x in ast.walk(s)):
+        raise ManagerUndecided('__enter__ returns from several places')
+    is_self = isinstance(enter_val, ast.Name) and enter_val.id == me
+    enter_stmts = [_ObjFields(me, fields, rename).visit(copy.deepcopy(s)) for s in ebody]
+    if var is not None:
+        if is_self:
+            pass
+        else:
+            val = ast.Constant(None) if enter_val is None else _ObjFields(me, fields, rename).visit(copy.deepcopy(enter_val))
+            enter_stmts.append(ast.copy_location(ast.Assign(targets=[ast.Name(var, ast.Store())], value=val), w))
+
+    # __exit__
+    xa = exit_.node.args
+    if xa.kwarg or xa.kwonlyargs or not ((len(xa.args) == 4 and xa.vararg is None) or (len(xa.args) == 1 and xa.vararg)):
+        raise ManagerUndecided('signature of __exit__')
+    ex_names = {p.arg for p in xa.args[1:]} | ({xa.vararg.arg} if xa.vararg else set())
+    me, rename = part(exit_)
+    xbody = _doc_free(exit_.node.body)
+    looks = any(isinstance(x, ast.Name) and x.id in ex_names for s in xbody for x in ast.walk(s))
+    on_exc, _ = _exit_branch(xbody, ex_names, True)
+    on_ok, _ = _exit_branch(xbody, ex_names, False)
+    on_exc = [_ObjFields(me, fields, rename).visit(copy.deepcopy(s)) for s in on_exc]
+    on_ok = [_ObjFields(me, fields, rename).visit(copy.deepcopy(s)) for s in on_ok]
+
+    inner = w.body if len(w.items) == 1 else [ast.copy_location(ast.With(items=w.items[1:], body=w.body, type_comment=None), w)]
+    if not on_exc and not on_ok:
+        tr = list(inner)
+    elif not looks:
+        tr = [ast.copy_location(ast.Try(body=inner, handlers=[], orelse=[], finalbody=on_ok), w)]
+    else:
+        jumps = [x for s in inner for x in walk_no_nested(s) if isinstance(x, (ast.Return, ast.Break, ast.Continue))]
+        if on_ok and jumps:
+            raise ManagerUndecided('BODY leaves the with statement by a jump and __exit__ acts on a normal exit')
+        h = ast.ExceptHandler(type=ast.Name('BaseException', ast.Load()), name=None,
+                              body=on_exc + [ast.copy_location(ast.Raise(exc=None, cause=None), exit_.node)])
+        ast.copy_location(h, exit_.node)
+        tr = [ast.copy_location(ast.Try(body=inner, handlers=[h], orelse=on_ok, finalbody=[]), w)]
+    return pre + enter_stmts + tr, (var if is_self else None), fields
+
+
+def _propagate_copies(fn: ast.AST) -> None:
+    """`a = b`, both plain locals bound exactly once in the function (b possibly a parameter never rebound): a is b
+    wherever it is read - read b, drop the copy (in place)"""
+    from ..astutil import _replace_stmt
+    for _ in range(8):
+        stores: dict[str, int] = {}
+        for x in ast.walk(fn):
+            if isinstance(x, ast.Name) and isinstance(x.ctx, (ast.Store, ast.Del)):
+                stores[x.id] = stores.get(x.id, 0) + 1
+            elif isinstance(x, ast.ExceptHandler) and x.name:
+                stores[x.name] = stores.get(x.name, 0) + 2
+            elif isinstance(x, (ast.Global, ast.Nonlocal)):
+                return
+        a = fn.args
+        params = {p.arg for p in a.posonlyargs + a.args + a.kwonlyargs}
+        hit = None
+        for st in walk_no_nested(fn):
+            if isinstance(st, ast.Assign) and len(st.targets) == 1 and isinstance(st.targets[0], ast.Name) \
+                    and isinstance(st.value, ast.Name) and stores.get(st.targets[0].id) == 1 \
+                    and st.targets[0].id not in params and st.targets[0].id != st.value.id \
+                    and (stores.get(st.value.id, 0) == 1 and st.value.id not in params
+                         or stores.get(st.value.id, 0) == 0 and st.value.id in params):
+                hit = st
+                break
+        if hit is None:
+            return
+        x_, y_ = hit.targets[0].id, hit.value.id
+        _replace_stmt(fn, hit, [])
+        for n in ast.walk(fn):
+            if isinstance(n, ast.Name) and n.id == x_ and isinstance(n.ctx, ast.Load):
+                n.id = y_
+
+
+def dissolve_managers(prog, fi, max_rounds: int = 4):
+    """A copy of function `fi` in which every `with` over a context manager *of the program* is replaced by what the
+    interpreter runs for it (see `_class_manager_try`; generator-based managers: astutil.splice_generator_managers), so
+    that the CFG rules see the rollback a manager performs as the handler it is.  `fi` itself when there is nothing to
+    replace.  ManagerUndecided when a manager of the program cannot be followed."""
+    from ..astutil import _replace_stmt, set_parents, splice_generator_managers, is_generator_manager
+    from ..loader import FunctionInfo
+
+    def resolve_gen(call):
+        try:
+            callee = resolve_call(prog, fi, call)
+        except Exception:
+            callee = None
+        if callee is None or not is_generator_manager(callee.node):
+            return None
+        f = call.func
+        recv = f.value if isinstance(f, ast.Attribute) and callee.cls is not None and not any(
+            'staticmethod' in d for d in callee.decorators()) else None
+        return callee.node, callee.qualname, recv
+
+    node = fi.node
+    out, done = splice_generator_managers(node, resolve_gen)
+    changed = bool(done)
+    for _ in range(max_rounds):
+        hit = None
+        for w in walk_no_nested(out):
+            if isinstance(w, ast.With) and w.items and isinstance(w.items[0].context_expr, ast.Call):
+                try:
+                    ci = resolve_class_call(prog, fi, w.items[0].context_expr)
+                except Exception:
+                    ci = None
+                if ci is not None and (ci.find_method('__exit__') is not None or ci.find_method('__enter__') is not None):
+                    hit = (w, ci)
+                    break
+        if hit is None:
+            break
+        if out is node:
+            idx = [i for i, x in enumerate(walk_no_nested(node)) if x is hit[0]][0]
+            out = _detached_copy(node)
+            hit = ([x for x in walk_no_nested(out)][idx], hit[1])
+        w, ci = hit
+        stmts, obj, fields = _class_manager_try(prog, fi, out, w, ci)
+        _replace_stmt(out, w, stmts)
+        if obj is not None:
+            # the name bound by `as` is the manager object: its fields are the locals / arguments that hold them
+            tr = _ObjFields(obj, fields)
+            out.body = [tr.visit(s) for s in out.body]
+        ast.fix_missing_locations(out)
+        set_parents(out)
+        changed = True
+    if not changed:
+        return fi
+    _propagate_copies(out)
+    set_parents(out)
+    return FunctionInfo(qualname=fi.qualname, node=out, module=fi.module, cls=fi.cls)
 
 
 # ======================================================================================================
@@ -2930,6 +3332,58 @@ def cached_member(prog, fi, e: ast.AST):
     return None
 
 
+def record_ctor_fields(prog, fi, c: ast.AST) -> dict[str, ast.expr] | None:
+    """field -> argument of a call that constructs a *record* of the program: a dataclass / NamedTuple whose whole
+    class chain is in the program and writes no `__init__` / `__new__` / `__post_init__`, so that constructing it does
+    nothing but keep the arguments under the field names (defaults: constants only).  None for anything else."""
+    if not isinstance(c, ast.Call) or any(isinstance(a, ast.Starred) for a in c.args) or any(k.arg is None for k in c.keywords):
+        return None
+    try:
+        ci = resolve_class_call(prog, fi, c)
+    except Exception:
+        ci = None
+    if ci is None:
+        return None
+    chain = ci.mro()
+    named = False
+    for k in chain:
+        if any(m_ in k.methods for m_ in ('__init__', '__new__', '__post_init__', '__getattr__', '__getattribute__')):
+            return None
+        for b in k.base_exprs:
+            bn = b.split('[')[0].split('.')[-1]
+            if bn == 'NamedTuple':
+                named = True
+            elif bn not in ('object', 'Generic') and not any(x.name.split('.')[-1] == bn for x in chain):
+                return None
+    data = all(any((dotted_name(d.func if isinstance(d, ast.Call) else d) or '').split('.')[-1] == 'dataclass'
+                   for d in k.node.decorator_list) for k in chain)
+    if not (named or data):
+        return None
+    order, defaults = [], {}
+    for k in reversed(chain):
+        for st_ in k.node.body:
+            if isinstance(st_, ast.AnnAssign) and isinstance(st_.target, ast.Name):
+                if 'ClassVar' in ast.unparse(st_.annotation):
+                    continue
+                if st_.target.id not in order:
+                    order.append(st_.target.id)
+                if st_.value is not None:
+                    defaults[st_.target.id] = st_.value
+    if len(c.args) > len(order):
+        return None
+    out = dict(zip(order, c.args))
+    for k in c.keywords:
+        if k.arg in out or k.arg not in order:
+            return None
+        out[k.arg] = k.value
+    for f in order:
+        if f not in out:
+            if not isinstance(defaults.get(f), ast.Constant):
+                return None
+            out[f] = defaults[f]
+    return out
+
+
 def _effect_free(prog, fn) -> bool:
     """a method that only computes: no stores but to its own local names, no deletions, no calls but of pure builtins /
     mapping reads, no generators"""
@@ -2941,7 +3395,8 @@ def _effect_free(prog, fn) -> bool:
         if isinstance(n, ast.Call):
             name = call_name(n)
             if not (name in _PURE_FUNCS or any(name == r or name.startswith(r + '.') for r in _PURE_ROOTS)
-                    or (isinstance(n.func, ast.Attribute) and n.func.attr in _PURE_METHODS)):
+                    or (isinstance(n.func, ast.Attribute) and n.func.attr in _PURE_METHODS)
+                    or record_ctor_fields(prog, fn, n) is not None):
                 return False
     return True
 
@@ -3057,8 +3512,16 @@ class Sym:
                         if key in st.env and isinstance(n.ctx, ast.Load):
                             return copy.deepcopy(st.env[key])
                     n.value = self.root(n.value)
-                    return n
+                    return self.project(n)
                 n.value = self.visit(n.value)
+                return self.project(n)
+
+            def project(self, n):
+                # a field of a record of the program constructed on this path is the argument it was constructed with
+                if isinstance(n.value, ast.Call) and isinstance(n.ctx, ast.Load):
+                    flds = sym.record_fields(n.value)
+                    if flds is not None and n.attr in flds:
+                        return copy.deepcopy(flds[n.attr])
                 return n
 
             def visit_Subscript(self, n):
@@ -3122,6 +3585,14 @@ class Sym:
             memo['#props'] = {meth.name for meth in self.rootfi.module.functions.values() if meth.cls is not None
                               and any(d.split('.')[-1] == 'property' for d in meth.decorators())}
         return memo['#props']
+
+    def record_fields(self, c: ast.AST):
+        if not isinstance(c, ast.Call):
+            return None
+        key = '#rec:' + norm(c)
+        if key not in self._cls_memo:
+            self._cls_memo[key] = record_ctor_fields(self.prog, self.rootfi, c)
+        return self._cls_memo[key]
 
     def class_of(self, v: ast.AST):
         """class of a symbolic value, unless that is the class the rules speak about (whose members are the rules'
@@ -3187,6 +3658,8 @@ class Sym:
             a, b = ce.left, ce.comparators[0]
             if isinstance(b, ast.Constant) and b.value is None:
                 nn = _noneness(a)
+                if nn is None and self.record_fields(a) is not None:
+                    nn = False          # a record that was just constructed
                 if nn is not None:
                     return nn == pol
             if isinstance(a, ast.Constant) and isinstance(b, ast.Constant) and isinstance(ce.ops[0], ast.Eq):
@@ -3259,8 +3732,8 @@ class Sym:
         if e is None:
             return
         for c in [x for x in walk_no_nested(e, include_lambda=False) if isinstance(x, ast.Call)]:
-            if c is skip or self._pure_call(c):
-                continue
+            if c is skip or self._pure_call(c) or self.record_fields(c) is not None:
+                continue        # (constructing a record of the program only keeps the arguments)
             def roots_of(parts):
                 out = set()
                 for p in parts:
